@@ -274,6 +274,9 @@ func repr(fm *Frame, args ...any) error {
 }
 
 func show(fm *Frame, v diag.Shower) error {
+	if v == nil {
+		return errs.BadValue{What: "argument to show", Valid: "exception or error", Actual: "$nil"}
+	}
 	out := fm.ByteOutput()
 	_, err := out.WriteString(v.Show(""))
 	if err != nil {
